@@ -26,7 +26,16 @@ pub fn gen(tier: &str, seed: u64, idx: u64, base: u64) -> Spec {
     let _ = tier;
     let mut rng = Rng::new(seed);
     let k = rng.below(100);
-    let world = if k < 35 {
+    let world = if rng.coin(1) {
+        // hand-written programs met during the work on this framework (regressions of fixed findings and instances of
+        // open ones that no generator produces: custom clauses, `not` under `forall`)
+        let (items, goals): (&[&str], &[&str]) = *rng.pick(&[
+            (&["#[auto] trait Send { }", "struct A { }"][..], &["forall<T> { not { T: Send } }"][..]),
+            (&["struct Vec<T> { }", "trait Marker { }", "impl<T> Marker for Vec<T> { }"][..], &["forall<T> { not { T: Marker } }", "not { forall<T> { T: Marker } }"][..]),
+            (&["trait Foo { }", "trait Bar { }", "struct A { }", "forall<X> { X: Foo if forall<Y> { if (Y: Bar) { X: Foo } } }"][..], &["A: Foo"][..]),
+        ]);
+        World { source: "hand".into(), items: items.iter().map(|s| s.to_string()).collect(), goals: goals.iter().map(|s| s.to_string()).collect() }
+    } else if k < 35 {
         wgen::gen_world(&mut rng, wgen::Profile::Wild)
     } else if k < 55 {
         wgen::gen_world(&mut rng, wgen::Profile::Any)
@@ -114,6 +123,9 @@ pub fn static_sig(spec: &Spec, class: &str) -> String {
         }
         if gt.contains("not {") || spec.world.items.iter().any(|i| i.contains("not {")) {
             sig.push_str("+negation");
+        }
+        if spec.world.items.iter().any(|i| i.contains(" if forall<")) {
+            sig.push_str("+forall-in-clause-body");
         }
     }
     sig
